@@ -780,6 +780,11 @@ theorem bodyKills_sound {e : Env} {o : Oracle} (hs : o.Sound e) {x x' : Pat} {S 
   · exact kills_dead (fun s hm => (ks_sound hs s x).1 (by have := h s hm; rw [Bool.and_eq_true] at this; exact this.1))
   · exact kills_dead (fun s hm => (ks_sound hs s x').1 (by have := h s hm; rw [Bool.and_eq_true] at this; exact this.2))
 
+theorem quant_zero_zero' (e : Env) (lzy : Bool) (a : Pat) (rtl : Bool) (st : St) :
+    m e (.quant lzy 0 (some 0) a) rtl st = [st] := by
+  rw [m_quant]
+  cases lzy <;> simp [iter, canGo]
+
 theorem quantRes_sound {e : Env} {o : Oracle} (hs : o.Sound e) {d : Bool} {lzy : Bool} {lo : Nat} {hi : Option Nat}
     {lzy' : Bool} {lo' : Nat} {hi' : Option Nat} {x x' : Pat} {r : Res} (hx : r.errs = [] → Holds e d r x x')
     (herr : (quantRes o d x x' lzy lo hi lzy' lo' hi' r).errs = []) :
@@ -817,6 +822,12 @@ theorem quantRes_sound {e : Env} {o : Oracle} (hs : o.Sound e) {d : Bool} {lzy :
     · obtain ⟨rfl, rfl, rfl, rfl, h5⟩ := h2
       simp only [and_self, h5, if_true] at herr ⊢
       have hmin := headEq_lazy_min e d lo hi x (canGo_of_hiAtLeast h5)
+      by_cases h0 : lo = 0
+      · subst h0
+        rw [if_pos rfl]
+        refine holds_top (hmin.trans (HeadEq.of_eq (fun st => ?_))) rfl
+        rw [quant_zero_zero', quant_zero_zero']
+      rw [if_neg h0] at herr ⊢
       by_cases h3 : lo = 1 ∨ (d = false ∧ bodyKills o x x' r.sites = true)
       · rw [if_pos h3] at herr ⊢
         obtain ⟨hce, hts⟩ := topOf_errs herr
@@ -827,6 +838,11 @@ theorem quantRes_sound {e : Env} {o : Oracle} (hs : o.Sound e) {d : Bool} {lzy :
         · obtain ⟨k1, k2⟩ := bodyKills_sound hs h4
           exact holds_top (hmin.trans (headEq_quant_eqMod true lo (some lo) ((hx he).headEq hk) (hx he).1 k1 k2)) hts
       · rw [if_neg h3] at herr ⊢
+        by_cases h6 : d = true ∧ r.sites.isEmpty = false
+        · rw [if_pos h6] at herr
+          simp only [List.append_eq_nil_iff] at herr
+          exact absurd herr.2 (by simp)
+        rw [if_neg h6] at herr ⊢
         obtain ⟨hce, hts⟩ := topOf_errs herr
         obtain ⟨he, hs'⟩ := eqOnly_errs hce
         exact holds_top (hmin.trans (HeadEq.of_eq (quant_congr_dir true lo (some lo) ((hx he).eq hs')))) hts
